@@ -2264,9 +2264,17 @@ Plan gen_C12(std::uint64_t seed, int tier) {
     }
     std::uint64_t sample = g.r.next();
     int nup = g.r.range(1, 2);
+    // the generator program also writes the encoded tables, before the
+    // offsets and - unless the offsets event asks for a fresh generator - to
+    // the same output stream (seeded change C12-q: formatting state left
+    // behind by encode_dispatch_data)
+    const bool tables_too = g.r.chance(0.3);
     for (int pi = 0; pi < np; ++pi) {
-        for (int u = 0; u < nup; ++u)
-            g.ev_update(pi);
+        for (int u = 0; u < nup; ++u) {
+            auto& up = g.ev_update(pi);
+            if (tables_too && is_sof(pi))
+                up.encode = 1;
+        }
         if (is_sof(pi))
             offsets(pi);
         auto& ck = g.ev_check(pi, ROUTES_BASIC);
